@@ -66,6 +66,8 @@ def check_factor_generators(prog: Program, rep: Report) -> None:
     # local generator
     lg = fm.methods.get("_yield_factor_identifier_local")
     ng = fm.methods.get("_yield_factor_identifier_non_local")
+    # private one-expression helpers (static or not) are read where they are used
+    lg, ng = (canon(prog, fm, g_) if g_ is not None else None for g_ in (lg, ng))
     for g, local in ((lg, True), (ng, False)):
         if g is None:
             rep.ob("R10.5-generator-shape", None, Loc(FTM, fm.node.lineno, fm.name), "generator", "not found")
@@ -171,11 +173,14 @@ def analyse(src: Source) -> List[Report]:
     check_tagger_algebra(prog, rep)
     check_occupancy(prog, rep)
     check_factor_generators(prog, rep)
+    from ..cell_rules import check_active_cell_level
+    check_active_cell_level(prog, rep, "R10.2-active-cell-at-cell-level")
     cfgs = load_all(prog)
     cache: Dict[str, HandlerFacts] = {}
     for cfg in cfgs:
         g = ConfigGraph(prog, cfg, cache)
         check_config_families(prog, cfg, g, rep)
+        g.explore(rep, ("C10",))
         check_factor_taggers(prog, cfg, g, rep, ("R1.2",))
     check_factor_files_symmetric(prog, cfgs, rep)
     rep.unit("config_files", len(cfgs))
@@ -228,4 +233,11 @@ TWINS = [
          "        for active_cell, active_identifier in self._internal_state.yield_active_cells():\n",
          "        for active_cell, active_identifier in self._internal_state.yield_active_cells():\n            _ = active_cell\n"),
     Edit("factor file lines reordered", F + "factor_set_dipoles_atomic.txt", "[0, 3], Repulsive\n[1, 2], Repulsive\n", "[1, 2], Repulsive\n[0, 3], Repulsive\n"),
+]
+MUTANTS += [
+    Edit("active cell from the leaf unit instead of the unit on the cell level", "jellyfysh/event_handler/abstracts/cell_veto_event_handler.py",
+         "        active_cell = self._cells.position_to_cell(relevant_cnode.value.position)", "        active_cell = self._cells.position_to_cell(self._active_leaf_unit.position)", "R10.2"),
+    Edit("cell boundary does not renew the nearby pair events", D + "coulomb_atoms/cell_veto.ini",
+         "[CellBoundary]\ncreate = coulomb_nearby, coulomb_cell_veto, cell_boundary, coulomb_surplus\ntrash = coulomb_nearby, coulomb_cell_veto, cell_boundary, coulomb_surplus",
+         "[CellBoundary]\ncreate = coulomb_cell_veto, cell_boundary, coulomb_surplus\ntrash = coulomb_cell_veto, cell_boundary, coulomb_surplus", "R10.6"),
 ]
